@@ -69,6 +69,7 @@ def same_fields(p, q):
 def check_roundtrip(ctx, kind, pdesc, p=None, via=None):
     case = lambda: {"kind": "rt", "mode": kind, "p": pdesc, "via": via}  # noqa: E731
     sig = {"rep": pdesc["rep"], "tform": pdesc["t"][0], "h24": pdesc["t"][1] == 24, "via": via}
+    impl._H.ticks = 0
     try:
         if p is None:
             p = impl.build_point(pdesc)
@@ -82,10 +83,11 @@ def check_roundtrip(ctx, kind, pdesc, p=None, via=None):
         ctx.count("derived_year_outside_agreed_digits_not_judged")
         return
     ctx.transitions += 3
+    impl._H.ticks = 0
     try:
-        text = impl.sstr(p)
+        text = str(p)
         q = parser_for(ned).parse(text)
-        text2 = impl.sstr(q)
+        text2 = str(q)
     except Exception as ex:
         ctx.violation("total", dict(sig, exc=type(ex).__name__), case, "str and parse work",
                       "raised %s: %s" % (type(ex).__name__, ex))
@@ -153,6 +155,7 @@ def check_dumps(ctx, kind, c, pdesc):
                 case = lambda: {"kind": "dump", "mode": kind, "p": pdesc, "fmt": fmt}  # noqa: E731
                 sig = {"dform": dname, "tform": tname, "zform": zname, "h24": pdesc["t"][1] == 24}
                 ctx.transitions += 2
+                impl._H.ticks = 0
                 try:
                     text = dumper.dump(p, fmt)
                 except Exception as ex:
